@@ -2251,8 +2251,8 @@ fn check_case(c: &mut Case, input: &Input) {
         }
         // ---- the saved tile read back the way a map loader does: AdtSet::load_from_path(root file) + merge(). No companion files
         // (_tex0 / _obj0 / _lod) lie next to it - a tile written by the builder is one self-contained root file
-        // (one case in eight: the route does not depend on what the tile holds beyond what parse_adt reads)
-        if c.idx % 8 == 3 && std::fs::read(&path).is_ok_and(|d| d == x0) {
+        // (every second case: the route does not depend on what the tile holds beyond what parse_adt reads)
+        if c.idx % 2 == 1 && std::fs::read(&path).is_ok_and(|d| d == x0) {
             c.count("adt_set_loads", 1);
             match trap(|| wow_adt::AdtSet::load_from_path(&path).map(|s| (s.texture.is_some() || s.object.is_some() || s.lod.is_some(), s.merge()))) {
                 Err(p) => c.violate(format!("adt-set-load-panic|{}", p.sig()), format!("AdtSet::load_from_path panicked: {}", p.msg), json!({})),
